@@ -282,7 +282,7 @@ func init() {
 		ID: "C15", Title: "every delivered line is a single well-formed IRC line", Level: "exploration",
 		LevelText:   "Generated POST bodies (JSON with control characters incl. CR/LF/NUL and whole forged second lines, over-long ASCII, multi-byte characters straddling byte 510, arbitrary strings; raw bodies that are invalid JSON, invalid UTF-8 or exceed the body limit) and generated quit messages of DELETE requests are sent through the real HTTP handlers of an in-process node by a channel member, a registered outsider and an unregistered session; every message in the output stream and every message served to two observing sessions by GET .../messages (after JSON transport) is checked against the re-stated line grammar.",
 		LevelNote:   "A prefix is required on relayed client commands and checked where present elsewhere (the closing ERROR and the services burst are emitted without prefix by fixed templates). A handler panic exits the process (exitOnRecover) and shows up as an inconclusive shard, not as a violation line.",
-		Technique:   "property-based testing (rapid) of the HTTP handlers with a validity predicate over every delivered line; native coverage-guided fuzzing of client histories with the same predicate over every reply in the thorough tier",
+		Technique:   "property-based testing (rapid) of the HTTP handlers with a validity predicate over every delivered line (as stored in the output and as JSON transport serves it); native coverage-guided fuzzing of client histories with the same predicate over every reply in the thorough tier",
 		DesignRef:   "4/C15",
 		Rule:        "case = 1-20 generated requests (JSON post / raw post / DELETE with quit message) from three poster roles; every output message is an evaluation (counter lines_checked_in_output_stream); non-trivial = a request whose text contains CR/LF/NUL or exceeds 510 bytes AND at least one line was delivered to another session; distinct = hash of the request list",
 		Assumptions: []string{"single voter raft in-process; PostMessageCooloff=0"},
